@@ -22,9 +22,10 @@ type CCH struct {
 	Calls   int   `json:"calls"`   // insertion calls per client
 	Sizes   []int `json:"sizes"`   // events per call, cycled over (client, call)
 	Restart bool  `json:"restart"` // clean restart before the final sweep
+	Backups int   `json:"backups"` // backups taken (management API's CreateBackup) while the clients insert
 }
 
-const ruleConc = "tier 2b (concurrent clients): a single RaftNode over RocksDB in an executor child; after 0-5 sequential adds, 2-16 clients run at once, each making 1-12 insertion calls one after the other (drawn sizes: single Add or AddBulk of 2-5 events); every call's acknowledgement is collected. Oracle: every acknowledged call got one snapshot per event, with consecutive versions in request order, each carrying the digest of ITS event; over all acknowledgements no version is issued twice and the versions are exactly 0..N-1 for N accepted events; re-applying the calls in the order of their versions to the reference model reproduces every history and hyper digest; afterwards (optionally after a clean restart) the node reports version N-1 and proves membership of sampled events against the reference snapshots. A call that fails makes the case inconclusive. Non-trivial: >=2 clients and >=1 bulk. distinct = FNV-64 of the case (schedules differ)."
+const ruleConc = "tier 2b (concurrent clients): a single RaftNode over RocksDB in an executor child; after 0-5 sequential adds, 2-16 clients run at once, each making 1-12 insertion calls one after the other (drawn sizes: single Add or AddBulk of 2-5 or 150 events); every call's acknowledgement is collected; in half of the cases that start with a non-empty log an operator takes up to 10-40 backups (CreateBackup, what POST /backup calls) while the clients insert. Oracle: every acknowledged call got one snapshot per event, with consecutive versions in request order, each carrying the digest of ITS event; over all acknowledgements no version is issued twice and the versions are exactly 0..N-1 for N accepted events; re-applying the calls in the order of their versions to the reference model reproduces every history and hyper digest; afterwards (optionally after a clean restart) the node reports version N-1 and proves membership of sampled events against the reference snapshots. A call that fails makes the case inconclusive. Non-trivial: >=2 clients and >=1 bulk. distinct = FNV-64 of the case (schedules differ)."
 
 var concRun int
 
@@ -32,8 +33,11 @@ func TestConcurrentClients(t *testing.T) {
 	rec := pbt.NewRec("C05", "TestConcurrentClients", ruleConc)
 	pbt.Run(t, rec, func(rt *rapid.T) CCH {
 		h := CCH{Before: rapid.IntRange(0, 5).Draw(rt, "before"), Clients: rapid.IntRange(2, 16).Draw(rt, "clients"), Calls: rapid.IntRange(1, 12).Draw(rt, "calls"), Restart: rapid.IntRange(0, 3).Draw(rt, "restart") == 0}
+		if h.Before > 0 {
+			h.Backups = rapid.SampledFrom([]int{0, 0, 10, 40}).Draw(rt, "backups")
+		}
 		for i, n := 0, rapid.IntRange(1, 6).Draw(rt, "nsizes"); i < n; i++ {
-			h.Sizes = append(h.Sizes, rapid.SampledFrom([]int{1, 1, 1, 2, 3, 5}).Draw(rt, "size"))
+			h.Sizes = append(h.Sizes, rapid.SampledFrom([]int{1, 1, 1, 2, 3, 5, 5, 150}).Draw(rt, "size"))
 		}
 		return h
 	}, execConc)
@@ -78,7 +82,7 @@ func execConc(h CCH, rec *pbt.Rec) error {
 			bulk = true
 		}
 	}
-	r, err := x.Call(&xp.Req{Op: "node-add-concurrent", Name: "n", A: uint64(h.Clients), B: uint64(h.Calls), Args: sizes}, 300*time.Second)
+	r, err := x.Call(&xp.Req{Op: "node-add-concurrent", Name: "n", A: uint64(h.Clients), B: uint64(h.Calls), C: uint64(h.Backups), Args: sizes}, 300*time.Second)
 	if err != nil {
 		return fmt.Errorf("%d clients inserting at once killed the node's process: %v", h.Clients, err)
 	}
@@ -156,6 +160,9 @@ func execConc(h CCH, rec *pbt.Rec) error {
 		return err
 	}
 	rec.Count("acknowledged_calls", int64(len(calls)))
+	if h.Backups > 0 {
+		rec.Class("backups-during-insertions", 1)
+	}
 	rec.Case([]interface{}{h, concRun}, h.Clients >= 2 && bulk)
 	rec.Sample(h.Clients*h.Calls, h)
 	return nil
